@@ -437,8 +437,16 @@ func replayReaderOne(sc *rScenario, realB int, seed int64, stepTimeout time.Dura
 					return
 				}
 			case <-time.After(stepTimeout):
-				fail(i, "violation", "termination", fmt.Sprintf("model: call returns after %s; real call still blocked after %v", st.A, stepTimeout))
-				return
+				if freeRun {
+					fail(i, "violation", "termination", fmt.Sprintf("model: call returns after %s; real call still blocked after %v with all gates open", st.A, stepTimeout))
+					return
+				}
+				// the real call may be waiting for tasks that the model does not have at this point and that sit at closed gates:
+				// that is a divergence from the model, not a hang. Open the gates; only a call that does not return then is stuck.
+				fail(i, "drift", "call-blocked", fmt.Sprintf("model: call returns after %s; real call still blocked after %v", st.A, stepTimeout))
+				if !waitPending(i) {
+					return
+				}
 			}
 		}
 		prev = exp
